@@ -207,7 +207,7 @@ func rewriteDigest(img []byte, md bool) ([]byte, error) {
 }
 
 var classes = []string{"none", "flip_covered", "flip_covered", "flip_any", "transplant", "flip+digest_rewrite", "flip+digest_rewrite", "flip+digest_rewrite+md",
-	"transplant+digest_rewrite", "blob_mutation", "blob_mutation", "forged_resign", "foreign_signer_splice", "valid_foreign_entry_then_transplant"}
+	"transplant+digest_rewrite", "append_behind_table", "blob_mutation", "blob_mutation", "forged_resign", "foreign_signer_splice", "valid_foreign_entry_then_transplant"}
 
 func genCase(t *rapid.T) Case {
 	img, signer, base := signedBase(t)
@@ -272,6 +272,16 @@ func genCase(t *rapid.T) Case {
 		if err == nil && c.Class == "transplant+digest_rewrite" {
 			out, err = rewriteDigest(out, rapid.Bool().Draw(t, "md"))
 		}
+	case "append_behind_table":
+		// bytes added to the file behind the certificate table (a payload smuggled into a signed file): the table no
+		// longer ends the file, so what the specification hashes is no longer what was signed
+		k := rapid.SampledFrom([]int{1, 7, 8, 16, 24, 64, 512, 4096}).Draw(t, "appended")
+		tail := gen.FillBytes(t, k)
+		if rapid.Bool().Draw(t, "zeros") {
+			tail = make([]byte, k)
+		}
+		out = append(append([]byte{}, img...), tail...)
+		c.Note += fmt.Sprintf("%d bytes appended behind the certificate table; ", k)
 	case "flip+digest_rewrite":
 		out, err = rewriteDigest(flip(img, true), false)
 	case "flip+digest_rewrite+md":
@@ -491,7 +501,12 @@ func checkCase(c Case) error {
 			}
 		}
 	}
-	bin, err := authenticode.Parse(bytes.NewReader(img))
+	variant := len(img)
+	if len(img) > 0 {
+		variant += int(img[len(img)/3])
+	}
+	rd, _ := hx.ReaderAtFor(img, variant)
+	bin, err := authenticode.Parse(rd)
 	if err != nil {
 		hx.Class("lib_parse_error")
 		return appendRoute(c, img, cert)
